@@ -228,8 +228,10 @@ Definition eval_body (n : node) : E value :=
   | _ => efail e_unknown
   end.
 
-(* print directives: name and arity are checked before the arguments are evaluated *)
-Fixpoint dirs_spec (ds : list node) : E (list (bstr * list darg)) :=
+(* print directives, one at a time: name and arity are checked before the arguments are evaluated, and the
+   directive is applied to the result so far [v] before the next one is looked at (as [Interp.print_dirs]: the
+   application is checked through [print_writes] with autoescape off) *)
+Fixpoint dirs_spec (ds : list node) (v : value) : E (list (bstr * list darg)) :=
   match ds with
   | [] => eret (map (fun nm => (nm, @nil darg)) (c_oblig cf))
   | NDirective _ name args :: r =>
@@ -237,7 +239,11 @@ Fixpoint dirs_spec (ds : list node) : E (list (bstr * list darg)) :=
       | None => efail e_nodirective
       | Some (arglens, _) =>
           if negb (check_num_args arglens (length args)) then efail Interp.e_arity
-          else vs <~ ev_list args ;; rest <~ dirs_spec r ;; eret ((name, map darg_of vs) :: rest)
+          else vs <~ ev_list args ;;
+               s <~ elift (value_string v) ;;
+               ws <~ elift (print_writes 2 [(name, map darg_of vs)] s) ;;
+               rest <~ dirs_spec r (VStr (concat_b ws)) ;;
+               eret ((name, map darg_of vs) :: rest)
       end
   | _ :: _ => efail e_unknown
   end.
@@ -344,7 +350,7 @@ Definition exec_body (en : env) (n : node) : Cm unit :=
       match v with
       | VUndef => sfail e_undefined
       | _ =>
-          ds <~~ sE (dirs_spec en dirs) ;;
+          ds <~~ sE (dirs_spec en dirs v) ;;
           s <~~ slift (value_string v) ;;
           ws <~~ slift (print_writes mode ds s) ;;
           semit (concat_b ws)
